@@ -714,6 +714,30 @@ def main(argv):
                     res.obligation(False, "multi-thread stress case failed: %s" % o.get("msg"))
                     continue
                 mt_oracle(res, c, o)
+        # back-pressure: a send() refused by a full path must leave the REQ as it was (failing-input search for
+        # C10_*_failed_calls_change_nothing; full pipes are otherwise outside the C10 harness)
+        bp = [{"k": "bp", "tr": "inproc"}, {"k": "bp", "tr": "tcp"}]
+        bobs, blog = C.run_harness("c10", bp, PROP, tag="bp", timeout=300)
+        if bobs is None:
+            res.obligation(False, "back-pressure probe could not run: " + str(blog)[-500:])
+        else:
+            for c, o in zip(bp, bobs):
+                res.evaluations += 1
+                row = o["rows"][0] if not o.get("panic") else [9, 0, 0, 0]
+                res.count("bp:%s:%s" % (c["tr"], {0: "no send was refused", 1: "refused send probed"}.get(row[0], "unexpected")))
+                if row[0] == 1:
+                    res.nontrivial.add("bp:" + c["tr"])
+                    bad = None
+                    if row[2] != 2:
+                        bad = "recv() right after a REFUSED send() was admitted (code %d) although no request is outstanding" % row[2]
+                    elif row[3] == 2:
+                        bad = "send() after a REFUSED send() was rejected as an FSM violation (InvalidState) although no send had succeeded"
+                    if bad:
+                        res.violation({"property": PROP, "kind": "implementation violates property oracle",
+                                       "what": "REQ over %s, SNDTIMEO=0, peer not reading: %s (refused with code %d)" % (c["tr"], bad, row[1]),
+                                       "case": c, "impl_obs": o, "harness": "c10"}, found_input=True)
+                elif row[0] in (2, 3, 9):
+                    res.notes.append("back-pressure probe %s: unexpected outcome %s" % (c["tr"], row))
     return res.finish(assumptions=[
         "one poll of REQ recv's select! (Notified, then the queue pop) is atomic; tokio::sync::Notify semantics as documented "
         "(notify_waiters wakes existing Notified futures only, notify_one stores one permit)",
